@@ -6,9 +6,9 @@ ANCHORS = UC.ANCHORS
 WITNESSES = {'all': ['success', 'failure', 'binds', 'with-prior']}
 OPTS = {'quick': {'selfcheck_mod': 100, 'budget_s': 240}, 'thorough': {'selfcheck_mod': 2000, 'budget_s': 2400}}
 BOUNDS = {
-    'quick': 'all ordered pairs (A,B) of term shapes of nesting depth <= 1 with size(A)+size(B) <= 4 over leaves '
+    'quick': 'all ordered pairs (A,B) of term shapes of nesting depth <= 1 with size(A)+size(B) <= 3, and <= 4 when both are lists or both complex terms, over leaves '
              '{a, atom of one symbolic letter, symbolic i64, symbolic f64, $V1, $V2, $_, []}, complex f/1 f/2 g/1, lists of <= 3 elements '
-             'with no tail / $V3 / $_ tail (parser-built node chains; constructor-built for size <= 3); '
+             'with no tail / $V3 / $V4 / $_ tail (parser-built node chains; constructor-built for size <= 3); '
              'plus 12 prior substitutions (each one real unification) x all pairs with size(A)+size(B) <= 3',
     'thorough': 'pairs with size(A)+size(B) <= 5 at depth <= 1 and <= 4 at depth 2; 12 single priors x pairs of total size <= 4; '
                 '20 double priors x pairs of total size <= 3',
@@ -18,7 +18,7 @@ ASSUMPTIONS = ['floats are not NaN; 0.0 and -0.0 count as equal (both the crate 
                'prior substitutions are produced by the real unify; histories on which it fails or disagrees with the reference are dropped here and reported by the no-prior family']
 
 LEAVES_Q = [['a'], ['s'], ['i'], ['x'], ['v', 1], ['v', 2], ['_']]
-TAILS = [['v', 3], ['_']]
+TAILS = [['v', 3], ['v', 4], ['_']]
 
 PRIORS = [
     (['v', 1], ['a']), (['v', 1], ['v', 2]), (['v', 2], ['v', 1]), (['v', 1], ['i']), (['v', 3], ['l', 'p', [['a']], None]),
@@ -54,7 +54,8 @@ def cases(tier, seed):
     tm = [t for t in U.terms(LEAVES_Q, TAILS, 3, 1, styles=('m',)) if is_m(t) and U.kind(t[2][-1] if t[3] is None else t[3]) != 'list']
     s1 = [t for t in tp if U.size(t) == 1]
     if tier == 'quick':
-        for a, b in pairs(tp, 3): add(a, b)
+        for a, b in pairs(tp, 4):
+            if U.size(a) + U.size(b) <= 3 or (U.kind(a) == U.kind(b) and U.kind(a) in ('list', 'cplx')): add(a, b)
         for a, b in pairs(tp + tm, 3):
             if is_m(a) or is_m(b): add(a, b)
         for p in PRIORS:
